@@ -10,7 +10,7 @@
 (*   - the is_key_like / is_index_like / is_value_like predicates and      *)
 (*     flatten.                                                            *)
 (***************************************************************************)
-EXTENDS Unparse, Equality
+EXTENDS Unparse, Equality, Reasons
 
 \* p / q  (DataPath.__truediv__): parts concatenated; a non-empty result is never concrete, modifiers are dropped
 ConcatPath(p, q) == PathT(p.parts \o q.parts, p.parts \o q.parts = <<>>, "none", "none")
